@@ -2,6 +2,7 @@ package codeccheck
 
 import (
 	"fmt"
+	"strings"
 
 	"verif/driver"
 	"verif/refcodec"
@@ -76,6 +77,11 @@ func evoContainers(id string, e *schema.Record) []*schema.Case {
 	ub := &schema.Record{Kind: schema.Message, Inline: true, Name: id + "UNB", Fields: []schema.Field{{Name: "m", Index: 1, Type: et}, {Name: "after", Index: 2, Type: schema.P("int32")}}}
 	out = append(out, mk("UN", &schema.Record{Kind: schema.Union, Branches: []schema.Branch{{Disc: 1, Rec: ua}, {Disc: 2, Rec: ub}}}))
 	out = append(out, mk("DP", &schema.Record{Kind: schema.Struct, Fields: []schema.Field{{Name: "inner", Type: schema.A(schema.R(sf.Rec))}, after}}))
+	// the union holding the evolved message, itself nested with something after it
+	un := out[len(out)-2].Rec
+	out = append(out, mk("NUS", &schema.Record{Kind: schema.Struct, Fields: []schema.Field{{Name: "u", Type: schema.R(un)}, after}}))
+	out = append(out, mk("NUA", &schema.Record{Kind: schema.Struct, Fields: []schema.Field{{Name: "us", Type: schema.A(schema.R(un))}, after}}))
+	out = append(out, mk("NUM", &schema.Record{Kind: schema.Message, Fields: []schema.Field{{Name: "u", Index: 1, Type: schema.R(un)}, {Name: "after", Index: 2, Type: schema.P("int32")}}}))
 	return out
 }
 
@@ -145,6 +151,11 @@ func (w *W) c04(groups [][]*driver.Bound, byID map[string]*schema.Case) {
 			idx[fmt.Sprintf("%s@%d", b.Case.ID, b.Opt)] = b
 		}
 	}
+	defer func() {
+		if w.res.States == 0 && w.res.HarnessErr == "" && w.si == 0 {
+			w.res.HarnessErr = "C04: no schema-evolution case was compiled into this worker (the evolution batch failed to generate or type-check: see C12), nothing could be checked"
+		}
+	}()
 	ord := 0
 	for _, g := range groups {
 		if !isEvo(g) {
@@ -188,13 +199,19 @@ func (w *W) c04(groups [][]*driver.Bound, byID map[string]*schema.Case) {
 				}
 				want := refcodec.NormalRec(restrictRec(rv, ob.Case.Rec))
 				w.distinctKey(id + string(enc))
-				for _, d := range decoders {
+				for _, d := range append(append([]decoder{}, decoders...), chunkedDecoders...) {
 					out := ob.New()
 					var ran bool
 					var o driver.Outcome
 					var cr *driver.ChunkReader
-					if d.name == "DecodeBebop" {
+					if strings.HasPrefix(d.name, "DecodeBebop") {
 						cr = driver.NewChunkReader(enc)
+						switch d.name {
+						case "DecodeBebop(1-byte reads)":
+							cr.Choose = pickOption(driver.OptOne)
+						case "DecodeBebop(half reads)":
+							cr.Choose = pickOption(driver.OptHalf)
+						}
 						ran, o = true, driver.Guard(func() error { return out.DecodeBebop(cr) })
 					} else {
 						ran, o = d.run(out, enc)
